@@ -479,9 +479,8 @@ def current_operands(ctx, rule, only=None):
 
 
 def run(ctx):
-    from .configtime import no_lazily_filled_attributes as _no_lazy, no_state_outside_objects as _no_state2
-    _no_lazy(ctx, 'C08.R1', ('Recipe', 'RecipeStep', 'Slicer', 'PlateSlicer', 'Plate'))
-    _no_state2(ctx, 'C08.R1', classes=('Recipe', 'RecipeStep', 'Slicer', 'PlateSlicer', 'Plate'))
+    from .configtime import derived_values as _derived
+    _derived(ctx, 'C08.R1', ('Recipe', 'RecipeStep', 'Slicer', 'PlateSlicer', 'Plate'))
     from .configtime import declarations_do_not_read_state as _decl_state
     _decl_state(ctx, 'C08.R7', ('Recipe.transfer', 'Recipe.create_solution', 'Recipe.create_solution_from', 'Recipe.remove',
                                 'Recipe.dilute', 'Recipe.fill_to'))
